@@ -190,7 +190,7 @@ Definition run_store (os : list op) : store * tm :=
   fold_left (fun st o => match op_effect (fst st) (snd st) o with (s1, t1, _, _) => (s1, t1) end) os (empty_store, tm0).
 Definition snap_eqb (a b : snapshot) : bool :=
   (sn_version a =? sn_version b) && set_eqb dnode_eqb (sn_nodes a) (sn_nodes b) && set_eqb dedge_eqb (sn_edges a) (sn_edges b).
-Inductive cobs := CErr | CPanic | COk (cur lat : gdump) (nn ne : Z).
+Inductive cobs := CErr | CPanic | CAbort | COk (cur lat : gdump) (nn ne : Z).
 Definition chk_copy (m : store) (o : cobs) : bool :=
   match o with
   | COk cur lat nn ne => dump_eqb (dump m (s_epoch m)) cur && dump_eqb (dump m latest) lat && (s_nn m =? nn) && (s_ne m =? ne)
@@ -255,10 +255,14 @@ Definition dsnap_eqb (a b : option (snapshot * nat)) : bool :=
   option_eqb (fun x y => snap_exact_eqb (fst x) (fst y) && (snd x =? snd y)%nat) a b.
 (** [bs]: bytes handed to [import_snapshot]; [d]: what the real decoder makes of them; [o]: the
     observed result.  The model decodes the bytes itself. *)
+(** C07-K4 as the run sees it: a 64-bit length marker in bytes the model decoder rejects *)
+Definition kc07_4 (bs : bytes) : bool :=
+  k07_4 bs && match dec_snapshot bs with None => true | Some _ => false end.
 Definition chk_import_bytes (bs : bytes) (d : option (snapshot * nat)) (o : cobs) : bool :=
   dsnap_eqb (dec_snapshot bs) d
   && match import dec_snapshot bs, o with
      | IErr, CErr => true
+     | IErr, CAbort => kc07_4 bs     (* the process was aborted while decoding: not modelled, tolerated only in class K4 *)
      | IPanic, CPanic => true
      | IOk m, COk _ _ _ _ => chk_copy m o
      | _, _ => false
